@@ -47,7 +47,8 @@ type kind int
 const (
 	kSendICA   kind = iota // bank.MsgSend 40 from the interchain account
 	kSendVic               // bank.MsgSend 40 from the victim (a plain funded account on the host)
-	kSendOther             // bank.MsgSend 40 from the interchain account registered for the OTHER controller port
+	kSendOther             // bank.MsgSend 40 from an interchain account registered for ANOTHER controller port
+	kSendTwin              // bank.MsgSend 40 from the interchain account registered for the SAME owner / port string on the other controller chain
 	kDelegate              // staking.MsgDelegate 30 from the interchain account
 	kMultiIV               // bank.MsgMultiSend with two inputs (signers): interchain account, victim
 	kMultiVI               // bank.MsgMultiSend with two inputs (signers): victim, interchain account
@@ -56,7 +57,7 @@ const (
 	nKinds
 )
 
-var kindNames = []string{"send(ica)", "send(victim)", "send(other-ica)", "delegate(ica)", "multisend(ica+victim)", "multisend(victim+ica)", "multisend(ica->2)", "send(ica,over-balance)"}
+var kindNames = []string{"send(ica)", "send(victim)", "send(other-ica)", "send(twin-ica-of-other-controller)", "delegate(ica)", "multisend(ica+victim)", "multisend(victim+ica)", "multisend(ica->2)", "send(ica,over-balance)"}
 
 func (k kind) String() string { return kindNames[k] }
 
@@ -114,26 +115,53 @@ func refAllowed(list []string, url string) bool {
 // ---- world ------------------------------------------------------------------------------------
 
 type fixture struct {
-	w    *ksim.World
-	link *ksim.Link
-	icas [2]*icaworld.ICA // [0]: owner 0, ORDERED, proto3; [1]: owner 1, UNORDERED, proto3json
-	vic  sdk.AccAddress
-	r1   sdk.AccAddress
-	r2   sdk.AccAddress
-	val  sdk.ValAddress
-	pool [2]sdk.AccAddress // bonded, not bonded
-	all  []string          // store names of the host chain
+	w     *ksim.World
+	links [3]*ksim.Link    // link of each channel under test
+	icas  [3]*icaworld.ICA // [0]: chain A owner 0, ORDERED, proto3; [1]: chain A owner 1, UNORDERED, proto3json; [2]: chain C owner 0 (same owner string as [0]), ORDERED, proto3
+	vic   sdk.AccAddress
+	r1    sdk.AccAddress
+	r2    sdk.AccAddress
+	val   sdk.ValAddress
+	pool  [2]sdk.AccAddress // bonded, not bonded
+	all   []string          // store names of the host chain
 }
 
+const chainC = 2 // second controller chain
+
+// other / twin pick the foreign interchain accounts used by the channel under test.
+var (
+	otherOf = [3]int{1, 0, 1} // an account registered for another controller port (and, for channel 2, another connection)
+	twinOf  = [3]int{2, 2, 0} // channel 0 <-> 2: same owner string registered from the other controller chain
+)
+
 func build(c *core.C) *fixture {
-	wk := ksim.NewWorker(c.T, 2)
+	wk := ksim.NewWorker(c.T, 3)
 	w := wk.Root()
 	icaworld.FixHeaders(w)
 	f := &fixture{w: w}
-	f.link = w.SetupClients(icaworld.A, icaworld.B)
-	w.SetupConnection(f.link, 0)
-	f.icas[0] = icaworld.Open(w, f.link, icaworld.Owner(0), icatypes.EncodingProtobuf, channeltypes.ORDERED)
-	f.icas[1] = icaworld.Open(w, f.link, icaworld.Owner(1), icatypes.EncodingProto3JSON, channeltypes.UNORDERED)
+	// Identifier layout (nothing is symmetric, and the two controllers collide on purpose):
+	//   A <-> B : A has client 07-tendermint-1 / connection-1 / channels from channel-2, B has 07-tendermint-0 / connection-0 / channel-0,1
+	//   C <-> B : C has client 07-tendermint-0 / connection-0 / channel-0,           B has 07-tendermint-1 / connection-1 / channel-2
+	// so the controller-side connection id of each link is the host-side connection id of the OTHER link, and the
+	// same owner string (hence the same controller port) is registered from A and from C.
+	lab := icaworld.SkewedLink(w, icaworld.A, icaworld.B)
+	lcb := w.SetupClients(chainC, icaworld.B)
+	w.SetupConnection(lcb, 0)
+	if lab.ConnA != lcb.ConnB || lcb.ConnA != lab.ConnB || lcb.ConnA == lcb.ConnB || lcb.ClientA == lcb.ClientB {
+		panic(fmt.Sprintf("unexpected identifier layout: A-B %+v, C-B %+v", lab, lcb))
+	}
+	f.links = [3]*ksim.Link{lab, lab, lcb}
+	f.icas[0] = icaworld.Open(w, lab, icaworld.Owner(0), icatypes.EncodingProtobuf, channeltypes.ORDERED)
+	f.icas[1] = icaworld.Open(w, lab, icaworld.Owner(1), icatypes.EncodingProto3JSON, channeltypes.UNORDERED)
+	f.icas[2] = icaworld.Open(w, lcb, icaworld.Owner(0), icatypes.EncodingProtobuf, channeltypes.ORDERED)
+	for _, ica := range f.icas {
+		if ica.ChanA == ica.ChanB {
+			panic("channel identifiers are symmetric: " + ica.ChanA)
+		}
+	}
+	if f.icas[0].Port != f.icas[2].Port || f.icas[0].Address == f.icas[2].Address {
+		panic("the two controllers do not collide on the port / do not get distinct accounts")
+	}
 	f.vic = icaworld.Addr("victim")
 	f.r1 = icaworld.Addr("recipient-1")
 	f.r2 = icaworld.Addr("recipient-2")
@@ -157,8 +185,10 @@ func build(c *core.C) *fixture {
 	f.pool = [2]sdk.AccAddress{authtypes.NewModuleAddress(stakingtypes.BondedPoolName), authtypes.NewModuleAddress(stakingtypes.NotBondedPoolName)}
 	f.all = icaworld.AllStoreNames(w, icaworld.B)
 	// both clients know the other chain's latest committed state
-	w.Sync(icaworld.B, f.link.ClientB, icaworld.A)
-	w.Sync(icaworld.A, f.link.ClientA, icaworld.B)
+	for _, l := range []*ksim.Link{lab, lcb} {
+		w.Sync(l.B, l.ClientB, l.A)
+		w.Sync(l.A, l.ClientA, l.B)
+	}
 	w.Flatten()
 	return f
 }
@@ -166,7 +196,7 @@ func build(c *core.C) *fixture {
 // msg builds the k-th message shape for the channel under test (ci) — `me` is the interchain account of that
 // channel, `other` the interchain account registered for the other controller port.
 func (f *fixture) msg(k kind, ci int) proto.Message {
-	me, other := f.icas[ci].Address, f.icas[1-ci].Address
+	me, other, twin := f.icas[ci].Address, f.icas[otherOf[ci]].Address, f.icas[twinOf[ci]].Address
 	coin := func(n int64) sdk.Coins { return icaworld.Coins(n) }
 	switch k {
 	case kSendICA:
@@ -175,6 +205,8 @@ func (f *fixture) msg(k kind, ci int) proto.Message {
 		return &banktypes.MsgSend{FromAddress: f.vic.String(), ToAddress: f.r1.String(), Amount: coin(sendAmt)}
 	case kSendOther:
 		return &banktypes.MsgSend{FromAddress: other, ToAddress: f.r1.String(), Amount: coin(sendAmt)}
+	case kSendTwin:
+		return &banktypes.MsgSend{FromAddress: twin, ToAddress: f.r1.String(), Amount: coin(sendAmt)}
 	case kDelegate:
 		return &stakingtypes.MsgDelegate{DelegatorAddress: me, ValidatorAddress: f.val.String(), Amount: sdk.NewCoin(icaworld.Denom, sdkmath.NewInt(delegateAmt))}
 	case kMultiIV:
@@ -198,6 +230,7 @@ func (f *fixture) msg(k kind, ci int) proto.Message {
 const (
 	aMe = iota
 	aOther
+	aTwin
 	aVictim
 	aR1
 	aR2
@@ -205,7 +238,7 @@ const (
 	nAccts
 )
 
-var acctNames = []string{"interchain-account", "other-interchain-account", "victim", "recipient-1", "recipient-2", "staking-pools"}
+var acctNames = []string{"interchain-account", "other-interchain-account", "twin-interchain-account", "victim", "recipient-1", "recipient-2", "staking-pools"}
 
 type transfer struct {
 	from []int // signers / debited accounts
@@ -223,6 +256,8 @@ func effect(k kind) transfer {
 		return transfer{[]int{aVictim}, []int64{sendAmt}, []int{aR1}, []int64{sendAmt}}
 	case kSendOther:
 		return transfer{[]int{aOther}, []int64{sendAmt}, []int{aR1}, []int64{sendAmt}}
+	case kSendTwin:
+		return transfer{[]int{aTwin}, []int64{sendAmt}, []int{aR1}, []int64{sendAmt}}
 	case kDelegate:
 		return transfer{[]int{aMe}, []int64{delegateAmt}, []int{aPools}, []int64{delegateAmt}}
 	case kMultiIV:
@@ -284,7 +319,7 @@ func judge(allow []string, msgs []kind, start [nAccts]int64) verdict {
 
 // Case is one enumerated packet (also the replay artefact).
 type Case struct {
-	Channel int    `json:"channel"` // 0: ORDERED/proto3, 1: UNORDERED/proto3json
+	Channel int    `json:"channel"` // 0: A owner0 ORDERED/proto3, 1: A owner1 UNORDERED/proto3json, 2: C owner0 ORDERED/proto3
 	Allow   int    `json:"allow"`
 	Kinds   []kind `json:"kinds"`
 }
@@ -308,7 +343,8 @@ func (cs Case) key() string {
 func (f *fixture) balances(w *ksim.World, ci int) [nAccts]int64 {
 	var b [nAccts]int64
 	b[aMe] = icaworld.Balance(w, icaworld.B, sdk.MustAccAddressFromBech32(f.icas[ci].Address))
-	b[aOther] = icaworld.Balance(w, icaworld.B, sdk.MustAccAddressFromBech32(f.icas[1-ci].Address))
+	b[aOther] = icaworld.Balance(w, icaworld.B, sdk.MustAccAddressFromBech32(f.icas[otherOf[ci]].Address))
+	b[aTwin] = icaworld.Balance(w, icaworld.B, sdk.MustAccAddressFromBech32(f.icas[twinOf[ci]].Address))
 	b[aVictim] = icaworld.Balance(w, icaworld.B, f.vic)
 	b[aR1] = icaworld.Balance(w, icaworld.B, f.r1)
 	b[aR2] = icaworld.Balance(w, icaworld.B, f.r2)
@@ -336,16 +372,17 @@ func (f *fixture) eval(c *core.C, base *ksim.World, cs Case) (verdict, *outcome)
 		c.Broken("cannot serialise %s: %v", cs, err)
 		return verdict{}, nil
 	}
-	pkt, r := icaworld.SendTx(w, f.link, ica.Owner, uint64(3600*1e9), data, ica.ChanA, ica.ChanB)
+	l := f.links[cs.Channel]
+	pkt, r := icaworld.SendTx(w, l, ica.Owner, uint64(3600*1e9), data, ica.ChanA, ica.ChanB)
 	if r.Class != ksim.OK {
 		c.Broken("MsgSendTx by the owner failed for %s: %s %v", cs, r, r.Err)
 		return verdict{}, nil
 	}
-	w.Sync(icaworld.B, f.link.ClientB, icaworld.A)
+	w.Sync(l.B, l.ClientB, l.A)
 	start := f.balances(w, cs.Channel)
 	ref := judge(allowCfgs[cs.Allow].List, cs.Kinds, start)
 	pre := w.DumpStores(icaworld.B, f.all)
-	rr := w.RecvV1(icaworld.B, icaworld.A, pkt, w.ClientLatest(icaworld.B, f.link.ClientB))
+	rr := w.RecvV1(l.B, l.A, pkt, w.ClientLatest(l.B, l.ClientB))
 	if rr.Class != ksim.OK {
 		c.Broken("MsgRecvPacket of a committed ICA packet failed for %s: %s %v", cs, rr, rr.Err)
 		return ref, nil
@@ -395,6 +432,9 @@ func (f *fixture) eval(c *core.C, base *ksim.World, cs Case) (verdict, *outcome)
 	if got[aOther] < start[aOther] {
 		viol("other-ica-debited", fmt.Sprintf("balance of the interchain account of another controller port %d -> %d", start[aOther], got[aOther]))
 	}
+	if got[aTwin] < start[aTwin] {
+		viol("twin-ica-debited", fmt.Sprintf("balance of the interchain account registered for the same port on the other controller's connection %d -> %d", start[aTwin], got[aTwin]))
+	}
 	if !ref.Executed {
 		if len(effectKeys) > 0 {
 			viol(effectOracle[ref.Reason], fmt.Sprintf("reference says %s at message %d, but the host changed %q", ref.Reason, ref.At, printable(effectKeys)))
@@ -441,8 +481,8 @@ func (f *fixture) eval(c *core.C, base *ksim.World, cs Case) (verdict, *outcome)
 
 // ownerOfBankKey maps a bank store key to the tracked account it belongs to (-1: none).
 func (f *fixture) ownerOfBankKey(key []byte, ci int) int {
-	addrs := [][]byte{aMe: sdk.MustAccAddressFromBech32(f.icas[ci].Address), aOther: sdk.MustAccAddressFromBech32(f.icas[1-ci].Address),
-		aVictim: f.vic, aR1: f.r1, aR2: f.r2}
+	addrs := [][]byte{aMe: sdk.MustAccAddressFromBech32(f.icas[ci].Address), aOther: sdk.MustAccAddressFromBech32(f.icas[otherOf[ci]].Address),
+		aTwin: sdk.MustAccAddressFromBech32(f.icas[twinOf[ci]].Address), aVictim: f.vic, aR1: f.r1, aR2: f.r2}
 	for i, a := range addrs {
 		if bytes.Contains(key, a) {
 			return i
@@ -506,11 +546,14 @@ func run(c *core.C) {
 		allowNames = append(allowNames, a.Name+"="+strings.Join(a.List, ","))
 	}
 	c.Set("allow_lists", allowNames)
-	c.Set("channels", []string{"0: ORDERED, proto3", "1: UNORDERED, proto3json"})
+	c.Set("channels", []string{
+		fmt.Sprintf("0: controller A owner0, ORDERED, proto3, %s/%s <-> %s/%s", f.links[0].ConnA, f.icas[0].ChanA, f.links[0].ConnB, f.icas[0].ChanB),
+		fmt.Sprintf("1: controller A owner1, UNORDERED, proto3json, %s/%s <-> %s/%s", f.links[1].ConnA, f.icas[1].ChanA, f.links[1].ConnB, f.icas[1].ChanB),
+		fmt.Sprintf("2: controller C owner0 (same port string as 0), ORDERED, proto3, %s/%s <-> %s/%s", f.links[2].ConnA, f.icas[2].ChanA, f.links[2].ConnB, f.icas[2].ChanB)})
 
 	if c.Replay != "" {
 		var cs Case
-		if err := c.LoadReplay(&cs); err != nil || cs.Allow < 0 || cs.Allow >= len(allowCfgs) || cs.Channel < 0 || cs.Channel > 1 {
+		if err := c.LoadReplay(&cs); err != nil || cs.Allow < 0 || cs.Allow >= len(allowCfgs) || cs.Channel < 0 || cs.Channel > 2 {
 			c.Broken("cannot load replay: %v", err)
 			return
 		}
@@ -523,10 +566,9 @@ func run(c *core.C) {
 		return
 	}
 
-	// quick: lists of up to 3 messages on the ORDERED/proto3 channel and up to 2 on the UNORDERED/proto3json one;
-	// thorough: up to 4 messages on both
-	maxLens := core.Pick(c, []int{3, 2}, []int{4, 4})
-	channels := []int{0, 1}
+	// maximal list length per channel (0: A/ORDERED/proto3, 1: A/UNORDERED/proto3json, 2: second controller C)
+	maxLens := core.Pick(c, []int{3, 2, 2}, []int{4, 3, 4})
+	channels := []int{0, 1, 2}
 	c.Set("max_messages_per_packet", maxLens)
 	evals, executed, rolledBack := 0, 0, 0
 	sigs := map[string]bool{}
